@@ -152,10 +152,44 @@ def _replay_search(a):
     return False, None, None, None
 
 
+def _purity(rep, seed=0):
+    from vlib.deductive import purity_probe
+    import warnings
+    rng = random.Random(seed + 4)
+    calls = []
+    for _ in range(6):
+        cfg = ic.rand_cfg(rng)
+        pi = ic.make_imager(cfg)
+        D = np.array(ic.rand_dgm(rng, rng.randint(1, 4), cfg), dtype=float)
+        D2 = D.copy()[::-1].copy()
+        sk = rng.random() < 0.7
+        calls.append(("PersistenceImager.transform(D, skew=%s) on a float64 array, kernel %s" % (sk, cfg["kclass"]), (lambda pi=pi, D=D, sk=sk: pi.transform(D, skew=sk)), [D]))
+        calls.append(("PersistenceImager.transform([D, D2], skew=%s) on float64 arrays" % sk, (lambda pi=pi, D=D, D2=D2, sk=sk: pi.transform([D, D2], skew=sk)), [D, D2]))
+    with warnings.catch_warnings():
+        warnings.simplefilter("ignore")
+        return purity_probe(rep, "PersistenceImager.transform", calls, "image:argument-modified")
+
+
+def _replay_frame(a):
+    class C:
+        def __init__(self):
+            self.v = []
+
+        def violation(self, what, sig, payload, **k):
+            self.v.append((what, sig, payload))
+    c = C()
+    _purity(c)
+    if c.v:
+        what, sig, payload = c.v[0]
+        return True, payload, sig, what
+    return False, None, None, None
+
+
 def run(rep, tier, seed):
     from contracts.c04_images import all_contracts
     cs, table = all_contracts(tier)
-    run_contracts(rep, cs, table, tier=tier, pid="C04", replayers=[(r"_transform|linear_ramp", _replay_search)])
+    run_contracts(rep, cs, table, tier=tier, pid="C04", replayers=[(r"\.frame\.", _replay_frame), (r"_transform|linear_ramp", _replay_search)])
+    _purity(rep, seed)
     rep.assume("kernel validity and accuracy = C13 (sbvn_cdf / bvn_cdf enter through their contracts); user kernels / weights are pure functions of their arguments",
                "D9 meshgrid(indexing='ij') + flatten('C') + reshape('C') cancel (structural model); D8 erfc",
                "arithmetic definedness inside _transform assumed (sigma > 0 in the precondition); shape mismatches are real obligations")
